@@ -446,7 +446,9 @@ case_verify(int code_i, int sidx, const int *seq, int len, int add_ma) {
 			if (R_UNSPEC == rd) n_corr_unspec ++;
 			else if (R_REJECT == rd) { n_corr_ref_reject ++; if (la) vh_fail("accepts-corrupted-packet", "chk=%d verify=%d; the reference rejects it (%s)", rc_chk, rc_ver, why); }
 			else { n_corr_ref_accept ++; if (!la) vh_fail("rejects-unprotected-change", "chk=%d verify=%d; no authenticator covers this byte and the packet is well-formed, RFC receiver accepts", rc_chk, rc_ver); }
-			if (covered_all && R_REJECT != rd) vh_fail("harness:reference-accepts-covered-corruption", "decision %d", rd);
+			/* harness self-check: every byte of a response / Accounting-Request is under its authenticator.  A flip that
+			 * turns the Code into Access-Request (3^02, 5^04) yields, by RFC design, an unauthenticated request: excluded */
+			if (covered_all && 1 != base[0] && R_REJECT != rd) vh_fail("harness:reference-accepts-covered-corruption", "decision %d", rd);
 			base[i] ^= (uint8_t)MASKS[k];
 		}
 	}
